@@ -225,6 +225,8 @@ class Verifier:
         # normal return: postconditions
         I.result = ret
         I.final_env = env
+        for gname, where in con.extra.get("bind_ghost", {}).items():
+            I.ghost_funcs[gname] = self.resolve_ghost(I, where, con)
         I.cur_line = fn.end_lineno
         post_env = dict(entry_env)
         post_env["__module__"] = con.file
@@ -244,6 +246,26 @@ class Verifier:
         I.check_loop_frame({"modifies": con.modifies}, marks, entry_env,
                            "fn")
         self.note_cover(f"{con.func}:return")
+
+    def resolve_ghost(self, I, where, con):
+        """'inserts[0].posold' / 'last_argsort.perm' / 'call:F.g' -> a spec
+        callable over the library's ghost maps of this path."""
+        import re
+        if where.startswith("call:"):
+            if where not in I.ghost:
+                raise SpecError(f"{con.func}: ghost {where} unbound on this "
+                                f"path")
+            return I.ghost[where]
+        m = re.match(r"(\w+)(?:\[(\d+)\])?\.(\w+)$", where)
+        key, idx, field = m.group(1), m.group(2), m.group(3)
+        if key not in I.ghost:
+            raise SpecError(f"{con.func}: ghost {where} unbound on this "
+                            f"path")
+        g = I.ghost[key]
+        if idx is not None:
+            g = g[int(idx)]
+        f = g[field]
+        return E.LibFunc(where, lambda I2, *a, f=f: f(*a))
 
     def check_raise(self, I, con, r, entry_env):
         allowed = dict(con.raises)
